@@ -142,12 +142,17 @@ func (m *urlModule) createURLSearchParamsPrototype() *goja.Object {
 		}
 
 		name := call.Argument(0).String()
+		arg := call.Argument(1)
+		byValue := !goja.IsUndefined(arg)
+		var value string
+		if byValue {
+			value = arg.String()
+		}
 		isValid := func(v searchParam) bool {
-			arg := call.Argument(1)
-			if goja.IsUndefined(arg) {
+			if !byValue {
 				return v.name != name
 			} else if v.name == name {
-				if v.value == arg.String() {
+				if v.value == value {
 					return false
 				}
 			}
